@@ -120,8 +120,12 @@ static int visit(void * e, void * p)
         visited[nvisited] = id_of_elem(e);
     }
     if ((erase_mask >> nvisited) & 1) {
-        /* the visit function may remove the visited element */
+        /* the visit function may remove the visited element; it then owns
+         * it (frees it, links it elsewhere): overwrite both links */
+        struct elem * el = e;
         cstl_dlist_erase(visit_list, e);
+        el->n.n = &poisonv[el - pool];
+        el->n.p = &poisonv[el - pool];
     }
     return nvisited++ == stop_at ? 7 : 0;
 }
